@@ -104,6 +104,8 @@ def case(draw):
         # a sub-Manifest (referenced from the top-level one) that itself
         # carries a valid cleartext signature
         'sub_signed': draw(st.integers(0, 2)) == 0,
+        # library API: edit and save a second time with the same loader
+        'second_save': draw(st.integers(0, 2)) == 0,
     }
 
 
@@ -221,6 +223,12 @@ def run_case(desc):
                     hashes=desc['hashes'])
                 m.update_entries_for_directory('')
                 m.save_manifests(force=desc['force'])
+                if desc.get('second_save'):
+                    with open(os.path.join(root, 'second-save-file'),
+                              'w') as f:
+                        f.write('added before the second save\n')
+                    m.update_entries_for_directory('')
+                    m.save_manifests(force=desc['force'])
                 return m
             oc = gem.call(run)
         what = (f'update via {api}: originally {desc["orig"]}, sign='
@@ -228,6 +236,8 @@ def run_case(desc):
                 f'{desc["home"]}')
         if sub_signed:
             classes.append('signed-sub-manifest')
+        if desc.get('second_save') and api == 'lib':
+            classes.append('second-save')
         if expect_load_failure_sub and not expect_load_failure:
             return ok(classes=classes + ['sub-load-failed'])
         if expect_load_failure:
